@@ -51,24 +51,24 @@ theorem decodeBulk_data (d rest : Bytes) (hn : d.length < 2 ^ 63) :
     · exact natToDec_noCR _ c h)
   simp only [List.cons_append] at h
   have hp := parseI64_natToDec d.length hn
-  have h1 : ((d.length : Int) = -1) = False := by simp; omega
+  have h1 : ((d.length : Int) = -1) = False := by simp
   have h2 : ((d.length : Int) < 0) = False := by simp
-  have h3 : ¬ ((d ++ CR :: LF :: rest).length < d.length + 2) := by simp; omega
+  have h3 : ¬ ((d ++ CR :: LF :: rest).length < d.length + 2) := by simp
   simp only [decodeBulk, h, List.tail_cons, hp, h1, h2, if_false, Int.toNat_natCast, h3]
   have h4 : (List.drop d.length (d ++ CR :: LF :: rest)).take 2 = [CR, LF] := by
     rw [List.drop_left]; rfl
   have h5 : List.take d.length (d ++ CR :: LF :: rest) = d := List.take_left
   have h6 : List.drop (d.length + 2) (d ++ CR :: LF :: rest) = rest := by
     rw [← List.drop_drop, List.drop_left]; rfl
-  simp [h4, h5, h6]
+  simp [h5, h6]
 
 /-! ### the element loop on a concatenation of encodings -/
 
-theorem elems_encodeList (dec : Bytes → Res) (vs : List RV) (rest : Bytes)
+theorem elems_encodeList (dec : Bytes → Res) (push : Nat) (vs : List RV) (rest : Bytes)
     (h : ∀ v ∈ vs, ∀ r, (dec (encode v ++ r)).out = .val (sanitize v)
         ∧ (dec (encode v ++ r)).rest = r) :
-    (elems dec vs.length (encodeList vs ++ rest)).out = .vals (sanitizeList vs)
-    ∧ (elems dec vs.length (encodeList vs ++ rest)).rest = rest := by
+    (elems dec push vs.length (encodeList vs ++ rest)).out = .vals (sanitizeList vs)
+    ∧ (elems dec push vs.length (encodeList vs ++ rest)).rest = rest := by
   induction vs with
   | nil => simp [elems, encodeList, sanitizeList]
   | cons v vs ih =>
@@ -76,7 +76,7 @@ theorem elems_encodeList (dec : Bytes → Res) (vs : List RV) (rest : Bytes)
     have ih' := ih (fun w hw => h w (List.mem_cons_of_mem _ hw))
     simp only [List.length_cons, encodeList, List.append_assoc, elems, hv.1, hv.2, ih'.1, ih'.2,
       sanitizeList]
-    exact ⟨rfl, rfl⟩
+    first | exact ⟨rfl, rfl⟩ | simp
 
 theorem depth_le_of_mem {v : RV} {vs : List RV} (h : v ∈ vs) : v.depth ≤ RV.depthList vs := by
   induction vs with
@@ -100,15 +100,15 @@ theorem sound_of_mem {v : RV} {vs : List RV} (hs : RV.soundList vs = true) (h : 
 /-! ### dispatch on the type byte -/
 
 theorem decodeD_43 (d : Nat) (bs : Bytes) : decodeD d (43 :: bs) = statusLine .simple (43 :: bs) := by
-  simp [decodeD]
+  cases d <;> simp [decodeD]
 theorem decodeD_45 (d : Nat) (bs : Bytes) : decodeD d (45 :: bs) = statusLine .error (45 :: bs) := by
-  simp [decodeD]
+  cases d <;> simp [decodeD]
 theorem decodeD_58 (d : Nat) (bs : Bytes) : decodeD d (58 :: bs) = decodeInt (58 :: bs) := by
-  simp [decodeD]
+  cases d <;> simp [decodeD]
 theorem decodeD_36 (d : Nat) (bs : Bytes) : decodeD d (36 :: bs) = decodeBulk (36 :: bs) := by
-  simp [decodeD]
+  cases d <;> simp [decodeD]
 theorem decodeD_95 (d : Nat) (bs : Bytes) : decodeD d (95 :: bs) = decodeNull (95 :: bs) := by
-  simp [decodeD]
+  cases d <;> simp [decodeD]
 theorem decodeD_42_zero (bs : Bytes) : decodeD 0 (42 :: bs) = ⟨.err, 42 :: bs, 0, 0⟩ := by
   simp [decodeD]
 theorem decodeD_42_noLine (d : Nat) (bs : Bytes) (h : readLine (42 :: bs) = none) :
@@ -128,19 +128,19 @@ def arrOut : OutL → Out
 theorem decodeD_42_succ (d : Nat) (bs line rest : Bytes) (n : Nat)
     (h : readLine (42 :: bs) = some (line, rest)) (hp : parseUsize line.tail = some n) :
     decodeD (d + 1) (42 :: bs) =
-      ⟨arrOut (elems (decodeD d) n rest).out, (elems (decodeD d) n rest).rest,
-       lineCost line + ELEM_SIZE * min n (rest.length / 3) + (elems (decodeD d) n rest).meter,
-       (elems (decodeD d) n rest).depth + 1⟩ := by
+      ⟨arrOut (elems (decodeD d) PUSH_COST n rest).out, (elems (decodeD d) PUSH_COST n rest).rest,
+       lineCost line + (elems (decodeD d) PUSH_COST n rest).meter,
+       (elems (decodeD d) PUSH_COST n rest).depth + 1⟩ := by
   simp only [decodeD, h, hp]
   simp only [show ((42 : UInt8) = 43) = False by decide, show ((42 : UInt8) = 45) = False by decide,
     show ((42 : UInt8) = 58) = False by decide, show ((42 : UInt8) = 36) = False by decide, if_false,
     if_true]
-  cases (elems (decodeD d) n rest).out <;> rfl
+  cases (elems (decodeD d) PUSH_COST n rest).out <;> rfl
 
 theorem decodeD_inline (d : Nat) (b : UInt8) (bs : Bytes) (h : isTypeByte b = false) :
     decodeD d (b :: bs) = decodeInline (b :: bs) := by
   simp only [isTypeByte, Bool.or_eq_false_iff, decide_eq_false_iff_not] at h
-  simp [decodeD, h]
+  cases d <;> simp [decodeD, h]
 
 /-! ### decode ∘ encode -/
 
@@ -205,12 +205,12 @@ theorem decodeD_encode : ∀ (d : Nat) (v : RV), v.depth ≤ d → v.sound = tru
         · rw [h]; decide
         · exact natToDec_noCR _ c h)
       simp only [List.cons_append] at hline
-      have hel := elems_encodeList (decodeD d) vs rest (fun v hv r =>
+      have hel := elems_encodeList (decodeD d) PUSH_COST vs rest (fun v hv r =>
         ih v (by have := depth_le_of_mem hv; omega) (sound_of_mem hs.2 hv) r)
       simp only [encode, List.cons_append, List.append_assoc, List.nil_append]
       rw [decodeD_42_succ d _ _ _ vs.length hline (by simpa using parseUsize_natToDec vs.length hs.1)]
       simp only [hel.1, hel.2, arrOut, sanitize]
-      exact ⟨rfl, rfl⟩
+      first | exact ⟨rfl, rfl⟩ | simp
     | _ => exact decodeD_encode_scalar _ _ (by intro vs h; cases h) hs rest
 
 end SgModel.Resp
